@@ -2083,6 +2083,14 @@ impl Connection {
         );
 
         self.process_decrypted_packet(now, remote, Some(packet_number), packet.into())?;
+        if self.state.is_closed() {
+            // The peer closed the connection with its very first packet. Drain like after any
+            // other close instead of lingering until the idle timeout.
+            self.close_common();
+            if !self.state.is_drained() {
+                self.set_close_timer(now);
+            }
+        }
         if let Some(data) = remaining {
             self.handle_coalesced(now, remote, ecn, data);
         }
